@@ -138,7 +138,7 @@ pub fn eval(family: &str, a: &[&str]) -> String {
 fn id_pool(r: &mut Rng) -> Vec<String> {
     let api = MockApi::default();
     let mut v: Vec<String> = vec![];
-    for d in ["uaura", "uusd", "uaurau", "usd", "u", "aura", "uaurauusd", "ibc/1F", "ibc/1", "F", "ua", "urau", "uaur", "auusd", "a", "b", "ab", "ba", "aa", "aaa"] {
+    for d in ["uaura", "uusd", "uaurau", "usd", "u", "aura", "uaurauusd", "ibc/1F", "ibc/1", "F", "ua", "urau", "uaur", "auusd", "a", "b", "ab", "ba", "aa", "aaa", "UAURA", "uAURA", "Uusd", "ibc/1f", "A", "Ab", "aB"] {
         v.push(format!("n{}", hexs(d.as_bytes())));
     }
     // long denoms (token-factory / IBC style, up to the SDK's 128 bytes) sharing long prefixes
